@@ -86,14 +86,14 @@ Section Crash.
   (* p is the path of key k, and k is a key the store can hold without the C17 defect biting:
      its (escaped) form has no '/', '.', NUL and is not empty *)
   Definition keypath (k : key) (p : path) : Prop :=
-    plain (enc_key cfg k) /\ key_len_ok (enc_key cfg k) /\ path_for_key cfg k = Some p.
+    wfb k /\ plain (enc_key cfg k) /\ key_len_ok (enc_key cfg k) /\ path_for_key cfg k = Some p.
 
   Definition in_staging (p : path) : Prop := exists name, p = stage_path (f_base cfg) name.
 
   Lemma keypath_shape : forall k p, keypath k p ->
     exists cs, p = f_base cfg ++ cs ++ [enc_key cfg k] /\ length cs = shard_depth (f_shard cfg) /\ Forall plain cs.
   Proof.
-    intros k p [P [L E]]. destruct (path_for_key_plain cfg k L P) as [cs [E2 [L2 F]]].
+    intros k p [_ [P [L E]]]. destruct (path_for_key_plain cfg k L P) as [cs [E2 [L2 F]]].
     exists cs. rewrite E in E2. inversion E2. auto.
   Qed.
 
@@ -120,14 +120,14 @@ Section Crash.
   Proof. intros p [name E] X. subst. unfold stage_path in X. destruct (f_base cfg); discriminate. Qed.
 
   (* escaping applied and injective, or no escaping at all (then enc_key is the identity) *)
-  Hypothesis enc_inj : forall k k', enc_key cfg k = enc_key cfg k' -> k = k'.
+  Hypothesis enc_inj : forall k k', wfb k -> wfb k' -> enc_key cfg k = enc_key cfg k' -> k = k'.
 
   Lemma keypath_inj : forall k k' p, keypath k p -> keypath k' p -> k = k'.
   Proof.
     intros k k' p H H'. destruct (keypath_shape k p H) as [cs [E _]].
     destruct (keypath_shape k' p H') as [cs' [E' _]]. rewrite E in E'.
     apply app_inv_head in E'. apply app_inj_tail in E'.
-    apply enc_inj. tauto.
+    apply enc_inj; try tauto. apply H. apply H'.
   Qed.
 
   (* the contents that may legitimately be found under a key *)
@@ -518,31 +518,30 @@ Section Crash.
     - (* WDirDown *)
       cbn [w_step]. destruct PO as [L [D [SP SS]]].
       inversion EF; subst.
-      + assert (G : forall e', e' <> ENOENT ->
-                  inv f1 (upd ws i (set_pc w (have_ret st (Err e') stack)))).
-        { intros e' _. destruct (have_ret_ok f1 w st (Err e') stack L D SS) as [P1 S1].
+      + assert (G : forall r', inv f1 (upd ws i (set_pc w (have_ret st r' stack)))).
+        { intros r'. destruct (have_ret_ok f1 w st r' stack L D SS) as [P1 S1].
           eapply finish_keep; [exact I|exact N|apply frame_refl; auto|exact P1|].
           rewrite PC. simpl. tauto. }
-        destruct e; try (apply G; discriminate).
+        destruct e; try (apply G).
         eapply finish_keep; [exact I|exact N|apply frame_refl; auto| |].
         * pcok. repeat split; auto. apply dirname_short; auto.
         * rewrite PC. simpl. auto.
       + simpl in H. contradiction.
       + assert (L1 : fs_lookup (fs_set f p Dir) st = Some (File (w_content w))).
         { rewrite lookup_set_other; auto. intros X. subst. congruence. }
-        destruct (have_ret_ok (fs_set f p Dir) w st (Ok tt) stack L1 D SS) as [P1 S1].
+        destruct (have_ret_ok (fs_set f p Dir) w st (mkdir_res (w_env w) (strip (Ok RVUnit))) stack L1 D SS) as [P1 S1].
         eapply finish_keep; [exact I|exact N|eapply frame_mkdir; eauto|exact P1|].
         rewrite PC. simpl. tauto.
     - (* WDirUp *)
       cbn [w_step]. destruct PO as [L [D [SP SS]]].
       inversion EF; subst.
-      + destruct (have_ret_ok f1 w st (Err e) stack L D SS) as [P1 S1].
+      + destruct (have_ret_ok f1 w st (mkdir_res (w_env w) (strip (Err e))) stack L D SS) as [P1 S1].
         eapply finish_keep; [exact I|exact N|apply frame_refl; auto|exact P1|].
         rewrite PC. simpl. tauto.
       + simpl in H. contradiction.
       + assert (L1 : fs_lookup (fs_set f p Dir) st = Some (File (w_content w))).
         { rewrite lookup_set_other; auto. intros X. subst. congruence. }
-        destruct (have_ret_ok (fs_set f p Dir) w st (Ok tt) stack L1 D SS) as [P1 S1].
+        destruct (have_ret_ok (fs_set f p Dir) w st (mkdir_res (w_env w) (strip (Ok RVUnit))) stack L1 D SS) as [P1 S1].
         eapply finish_keep; [exact I|exact N|eapply frame_mkdir; eauto|exact P1|].
         rewrite PC. simpl. tauto.
     - (* WExist *)
